@@ -11,7 +11,7 @@ import sys
 import time
 
 ROOT = os.path.dirname(os.path.dirname(os.path.abspath(__file__)))
-REPO = "/repo"
+REPO = os.environ.get("VERIF_REPO", "/repo")   # the override exists for trying seeded changes on a scratch worktree
 CACHE = os.path.join(ROOT, ".cache")
 LEAN = os.path.join(ROOT, "lean")
 HARNESS = os.path.join(ROOT, "harness")
@@ -127,6 +127,33 @@ def build_harness(features, release=False):
     if r.returncode != 0:
         raise Broken("harness build failed (does /repo still compile with --features verif-hooks?):\n"
                      + r.stderr[-3000:])
+
+
+RTONLY = os.path.join(ROOT, "harness-rtonly")
+
+
+def rtonly_bin(stream):
+    return os.path.join(CACHE, "target-rtonly" + ("-stream" if stream else ""), "debug", "verif-harness-rtonly")
+
+
+def build_rtonly(stream):
+    """A host that links the runtime crate alone (C14: feature unification must not matter)."""
+    lock_src = os.path.join(REPO, "Cargo.lock")
+    lock_dst = os.path.join(RTONLY, "Cargo.lock")
+    if os.path.exists(lock_src):
+        if not os.path.exists(lock_dst) or open(lock_src).read() != open(lock_dst).read():
+            shutil.copy(lock_src, lock_dst)
+    toml = os.path.join(RTONLY, "Cargo.toml")
+    want = open(toml).read()
+    fixed = re.sub(r'bladeink = \{ path = "[^"]*"', 'bladeink = { path = "%s"' % os.path.join(REPO, "runtime"), want)
+    if fixed != want:
+        open(toml, "w").write(fixed)
+    cmd = ["cargo", "build", "--offline"] + (["--features", "stream"] if stream else [])
+    env = cargo_env()
+    env["CARGO_TARGET_DIR"] = os.path.dirname(os.path.dirname(rtonly_bin(stream)))
+    r = run(cmd, cwd=RTONLY, env=env)
+    if r.returncode != 0:
+        raise Broken("runtime-only harness build failed:\n" + r.stderr[-3000:])
 
 
 CLI_TARGET = os.path.join(CACHE, "target-cli")
